@@ -60,7 +60,13 @@ def django_env():
         number = models.IntegerField(unique=True); title = models.CharField(max_length=50, null=True)
         class Meta:
             app_label = "vapp"; db_table = "d"
+    class LiveManager(models.Manager):
+        """a secondary manager with conditions of its own (C15: a Manager is a base query too)"""
+        def get_queryset(self):
+            return super().get_queryset().filter(a__gte=0)
     class P(models.Model):
+        objects = models.Manager()
+        live = LiveManager()
         a = models.IntegerField(null=True); s = models.CharField(max_length=50, null=True)
         dept = models.ForeignKey(D, null=True, on_delete=models.CASCADE, related_name="emps", to_field="number", db_column="dn")
         o = models.ForeignKey(O, null=True, on_delete=models.CASCADE, related_name="ps")
